@@ -266,6 +266,10 @@ def triage(prop, plan, g, known):
 
     def same(v):
         return v is not None and v['cls'] == v0['cls'] and v['site'] == v0['site']
+    # a hang costs the full time limit per execution: while minimising, a plan that is still running after 12 s (twice the
+    # workers' watchdog; honest plans take milliseconds to a few seconds) counts as hanging; the result is then confirmed
+    # twice with the 60 s limit before it is reported
+    tmo = 12 if v0['cls'] == 'watchdog:timeout' else 60
     v1 = run_ab(plan)
     if v0['cls'] == 'watchdog:timeout' and v1 is None:
         # A hang is a deterministic loop and reproduces in a fresh process (60 s limit there); a worker that was only
@@ -275,7 +279,7 @@ def triage(prop, plan, g, known):
         # the site of an A/B mismatch or a step-budget report is the config string and stable; sanitizer sites come from the stack
         log('alarm did not reproduce alone:', v0, '->', v1, g['origin'])
         return 'flaky'
-    mz = simlib.Minimizer(lambda p: run_ab(p), same, budget=250)
+    mz = simlib.Minimizer(lambda p: run_ab(p, timeout=tmo), same, budget=250)
     small = mz.minimise(plan, keep_keys=('f', 'field', 'width', 'be'))
     # also try to shrink the image
     for key in ('w', 'h'):
